@@ -181,6 +181,26 @@ theorem terminate_completes (s : State) (hc : s.cancelled = true) (hne : s.exite
     ∃ s', step s .exit = some s' ∧ s'.exited = true := by
   exact ⟨{ s with deadline := none, fired := false, exited := true }, by simp [step, hc, hne], rfl⟩
 
+/-! ### A whole burst, literally -/
+
+/-- **A burst inside the window yields a single signal.** For every window `w`
+and every burst of strobes whose gaps are all smaller than `w`: the run
+"strobe, (gap, strobe)…, wait `w`, the timer expires, the loop delivers" is a run
+of the model, it sends exactly one signal, and it does so `w` after the *last*
+strobe (no signal is sent in between: `burst_sends_nothing`). -/
+theorem burst_yields_single_signal (w : Nat) (gs : List Nat) (hg : ∀ g ∈ gs, g < w) :
+    ∃ s, run (init w) (.strobe :: (burst gs ++ [.tick w, .expire, .deliver])) = some s ∧
+      s.sends = 1 ∧ s.sig = 1 ∧ s.now = gs.sum + w ∧ s.lastStrobe = some gs.sum := by
+  let s1 : State := { init w with deadline := some (0 + w), lastStrobe := some 0, strobes := 1 }
+  have h1 : step (init w) .strobe = some s1 := by simp [step, init, s1]
+  have harm : Armed w 0 s1 := by simp [Armed, s1, init]
+  obtain ⟨s2, hr2, ⟨a1, a2, a3, a4, a5, a6, a7, a8⟩⟩ := burst_keeps_armed w gs hg 0 s1 harm
+  simp only [Nat.zero_add] at a2 a3 a8
+  refine ⟨{ s2 with now := s2.now + w, deadline := none, fired := false, sig := 1, sends := 1, delivers := s2.delivers + 1 }, ?_, rfl, rfl, by simp [a2], a8⟩
+  simp only [run, h1, Option.bind_some]
+  rw [run_append, hr2]
+  simp [run, step, a1, a2, a3, a4, a5, a6, a7, signalCap]
+
 /-! ### Non-vacuity -/
 
 /-- The canonical schedule, for every window: strobe, wait the window, the
